@@ -30,6 +30,27 @@ type Config struct {
 	Deadline      time.Time
 	NoMergeFuncs  map[string]bool
 	Params        map[string]int // values returned by verifParam(name)
+	EagerBranches bool           // always decide branch feasibility before forking (no lazy arms)
+	// OracleMergeBudget is the merge budget for branches inside harness oracle functions (name starts
+	// with "verif"/"Verif" or listed in MergeFuncs): those are meant to be folded into one term.
+	OracleMergeBudget int64
+	MergeFuncs        map[string]bool
+}
+
+func (e *Exec) isOracleFunc(fn *ssa.Function) bool {
+	if v, ok := e.oracleCache[fn]; ok {
+		return v
+	}
+	name := fn.Name()
+	if p := fn.Parent(); p != nil {
+		for p.Parent() != nil {
+			p = p.Parent()
+		}
+		name = p.Name()
+	}
+	v := strings.HasPrefix(name, "verif") || strings.HasPrefix(name, "Verif") || e.cfg.MergeFuncs[fn.String()] || e.cfg.MergeFuncs[name]
+	e.oracleCache[fn] = v
+	return v
 }
 
 type Stats struct {
@@ -37,6 +58,7 @@ type Stats struct {
 	Instrs                           int64
 	Concretizations                  int
 	PrunedBranches                   int
+	LazyBranches                     int
 }
 
 type AssertStat struct {
@@ -85,12 +107,14 @@ type Exec struct {
 	FuncInstrs map[string]int64
 	CapsHit    map[string]int
 	Stubs      map[string]int
+	QueryKinds map[string]int
 	finished   int
 	feasCache  map[feasKey]smt.Result
 	errorType  types.Type
 	funcByName map[string]*ssa.Function
 
 	pendingPanics []pendingPanic
+	oracleCache   map[*ssa.Function]bool
 }
 
 type feasKey struct {
@@ -115,7 +139,10 @@ func New(prog *ssa.Program, ts *term.Store, solver *smt.Solver, cfg Config) *Exe
 		cfg.ConcretizeCap = 64
 	}
 	if cfg.MergeBudget == 0 {
-		cfg.MergeBudget = 20000
+		cfg.MergeBudget = 64
+	}
+	if cfg.OracleMergeBudget == 0 {
+		cfg.OracleMergeBudget = 200000
 	}
 	if cfg.MaxViolations == 0 {
 		cfg.MaxViolations = 20
@@ -124,8 +151,8 @@ func New(prog *ssa.Program, ts *term.Store, solver *smt.Solver, cfg Config) *Exe
 		fninfo: map[*ssa.Function]*fnInfo{}, base: map[int]*Object{}, tables: map[*ArrayV]*term.Table{},
 		globals: map[*ssa.Global]int{}, initDone: map[*ssa.Package]bool{}, initBad: map[*ssa.Package]string{},
 		Outcomes: map[string]int{}, Asserts: map[string]*AssertStat{}, FuncInstrs: map[string]int64{},
-		CapsHit: map[string]int{}, Stubs: map[string]int{}, feasCache: map[feasKey]smt.Result{},
-		funcByName: map[string]*ssa.Function{}}
+		CapsHit: map[string]int{}, Stubs: map[string]int{}, QueryKinds: map[string]int{}, feasCache: map[feasKey]smt.Result{},
+		funcByName: map[string]*ssa.Function{}, oracleCache: map[*ssa.Function]bool{}}
 	e.errorType = types.Universe.Lookup("error").Type()
 	return e
 }
@@ -169,7 +196,37 @@ func (e *Exec) pushFrame(st *State, fn *ssa.Function, args []Value, bind []Value
 	st.frames = append(st.frames, f)
 }
 
+// ensureVerified makes sure the path condition of a lazily forked state is satisfiable and that the
+// state carries a witness for it. Returns false (state is dead) otherwise.
+func (e *Exec) ensureVerified(st *State) bool {
+	if !st.unverified {
+		return true
+	}
+	res, m := e.checkW(st, "verify-lazy", e.ts.True)
+	switch res {
+	case smt.Sat:
+		st.witness = m
+		st.unverified = false
+		return true
+	case smt.Unknown:
+		e.CapsHit["unknown-branch: solver unknown while verifying a lazily forked arm"]++
+		e.Outcomes["unknown-branch"]++
+	}
+	e.stats.PrunedBranches++
+	return false
+}
+
+// needVerified is ensureVerified for use inside instruction handlers.
+func (e *Exec) needVerified(st *State) {
+	if st.unverified && !e.ensureVerified(st) {
+		panic(&execPanic{kind: "dead"})
+	}
+}
+
 func (e *Exec) finish(st *State, outcome, detail string) {
+	if st.unverified && !e.ensureVerified(st) {
+		return
+	}
 	st.outcome, st.detail = outcome, detail
 	e.finished++
 	e.stats.Paths++
@@ -219,6 +276,14 @@ func (e *Exec) addViolation(st *State, kind, id, detail string) {
 // solver helpers
 
 // check decides PC ∧ extra. On Sat returns a model over the state's nondet variables.
+func (e *Exec) checkW(st *State, why string, extra *term.Term) (smt.Result, *term.Model) {
+	t0 := time.Now()
+	r, m := e.check(st, extra)
+	e.QueryKinds[why+"/"+r.String()]++
+	e.QueryKinds[why+"/ms"] += int(time.Since(t0).Microseconds())
+	return r, m
+}
+
 func (e *Exec) check(st *State, extra *term.Term) (smt.Result, *term.Model) {
 	if extra.IsFalse() {
 		return smt.Unsat, nil
@@ -256,12 +321,14 @@ const (
 	evPaused
 	evBranch
 	evConcretize
+	evChoice
 )
 
 type event struct {
 	kind evKind
 	cond *term.Term
 	t    *term.Term
+	n    int
 }
 
 func (e *Exec) overBudget() bool {
@@ -291,7 +358,38 @@ func (e *Exec) explore(st *State) []*State {
 			return nil
 		case evPaused:
 			return []*State{st}
+		case evChoice:
+			// pure nondeterministic choice among n values: one child per value, no solver involved
+			if !e.ensureVerified(st) {
+				return nil
+			}
+			v := e.newNondet(st, 64, "choice")
+			var out []*State
+			for i := 0; i < ev.n; i++ {
+				c := st
+				if i < ev.n-1 {
+					c = e.fork(st)
+				}
+				k := uint64(i)
+				c.addPC(e.ts.Eq(v, e.ts.Const(64, k)))
+				vals := make(map[string]uint64, len(c.witness.Vals)+1)
+				for name, val := range c.witness.Vals {
+					vals[name] = val
+				}
+				vals[v.Name] = k
+				c.witness = term.NewModel(vals)
+				c.choice = &k
+				out = append(out, e.explore(c)...)
+			}
+			return out
 		case evConcretize:
+			if !e.ensureVerified(st) {
+				return nil
+			}
+			if _, dup := st.conc[ev.t.ID]; dup {
+				e.finish(st, "internal", "repeated concretisation request for "+ev.t.String())
+				return nil
+			}
 			children := e.concretize(st, ev.t)
 			var out []*State
 			for _, c := range children {
@@ -299,18 +397,40 @@ func (e *Exec) explore(st *State) []*State {
 			}
 			return e.regroup(st, out)
 		case evBranch:
+			if !e.ensureVerified(st) {
+				return nil
+			}
 			c := ev.cond
 			wv := e.ts.Eval(c, st.witness) != 0
 			other := c
 			if wv {
 				other = e.ts.Not(c)
 			}
+			f := st.top()
+			join := f.info.ipdom[f.block.Index]
+			canMerge := !e.cfg.NoMerge && join != pdNone && !e.cfg.NoMergeFuncs[f.fn.String()] && (len(st.frames) > 1 || join >= 0)
+			budget := e.cfg.MergeBudget
+			if canMerge {
+				if e.isOracleFunc(f.fn) {
+					budget = e.cfg.OracleMergeBudget
+				} else if f.info.isLoopExit(f.block.Index) {
+					// a loop whose trip count is symbolic is unrolled by forking: merging would turn the
+					// loop counter (and everything indexed by it) into ite terms
+					canMerge = false
+				}
+			}
 			var res smt.Result
 			var model *term.Model
+			lazy := false
 			if _, known := st.pcKnown(c, e.ts.Not(c)); known {
 				res = smt.Unsat // the witness side is the only one consistent with the path condition
+			} else if canMerge && !e.cfg.EagerBranches && e.isOracleFunc(f.fn) {
+				// the other arm is explored without a feasibility query; it is verified lazily, the first
+				// time it needs a witness or terminates (simple diamonds never do)
+				res, lazy = smt.Sat, true
+				e.stats.LazyBranches++
 			} else {
-				res, model = e.check(st, other)
+				res, model = e.checkW(st, "branch", other)
 			}
 			if res == smt.Unknown {
 				// cannot decide the other side: record it as an inconclusive path and go on with the witness side
@@ -320,41 +440,51 @@ func (e *Exec) explore(st *State) []*State {
 			}
 			if res == smt.Unsat {
 				e.stats.PrunedBranches++
-				e.takeBranch(st, wv)
+				if e.takeBranch(st, wv) {
+					return []*State{st}
+				}
 				continue
 			}
 			// both sides feasible
 			sW, sO := st, e.fork(st)
-			sO.witness = model
+			if lazy {
+				sO.unverified = true
+			} else {
+				sO.witness = model
+			}
 			condW, condO := c, e.ts.Not(c)
 			if !wv {
 				condW, condO = condO, condW
 			}
 			prefix := st.pc
-			f := st.top()
-			join := f.info.ipdom[f.block.Index]
 			sW.addPC(condW)
 			sO.addPC(condO)
 			lvl := -1
-			if !e.cfg.NoMerge && join != pdNone && !e.cfg.NoMergeFuncs[f.fn.String()] {
-				p := pause{depth: len(st.frames), limit: st.instrs + e.cfg.MergeBudget}
+			if canMerge {
+				p := pause{depth: len(st.frames), limit: st.instrs + budget}
 				if join >= 0 {
 					p.block = f.fn.Blocks[join]
 				}
 				if n := len(st.pauses); n > 0 && st.pauses[n-1].depth == p.depth && st.pauses[n-1].block == p.block {
 					// same join as the enclosing level: let the enclosing handler merge everything
 					lvl = -1
-				} else if len(st.pauses) < 48 && (len(st.frames) > 1 || p.block != nil) {
+				} else if len(st.pauses) < 48 {
 					lvl = len(st.pauses)
 					sW.pauses = append(sW.pauses, p)
 					sO.pauses = append(append([]pause(nil), sO.pauses...), p)
 				}
 			}
-			e.takeBranch(sW, wv)
-			e.takeBranch(sO, !wv)
 			var rs []*State
-			rs = append(rs, e.explore(sW)...)
-			rs = append(rs, e.explore(sO)...)
+			if e.takeBranch(sW, wv) {
+				rs = append(rs, sW)
+			} else {
+				rs = append(rs, e.explore(sW)...)
+			}
+			if e.takeBranch(sO, !wv) {
+				rs = append(rs, sO)
+			} else {
+				rs = append(rs, e.explore(sO)...)
+			}
 			if lvl < 0 {
 				return rs
 			}
@@ -394,7 +524,7 @@ func (e *Exec) explore(st *State) []*State {
 // regroup is a hook for merging the children of a concretisation; currently they continue separately.
 func (e *Exec) regroup(parent *State, out []*State) []*State { return out }
 
-func (e *Exec) takeBranch(st *State, which bool) {
+func (e *Exec) takeBranch(st *State, which bool) (paused bool) {
 	f := st.top()
 	ifi := f.block.Instrs[f.pc].(*ssa.If)
 	_ = ifi
@@ -402,7 +532,8 @@ func (e *Exec) takeBranch(st *State, which bool) {
 	if !which {
 		succ = f.block.Succs[1]
 	}
-	e.jump(st, f, succ)
+	st.instrs++
+	return e.jump(st, f, succ)
 }
 
 // concretize forks st over the feasible values of t.
@@ -419,7 +550,7 @@ func (e *Exec) concretize(st *State, t *term.Term) []*State {
 		if n == 0 {
 			v = e.ts.Eval(t, cur.witness)
 		} else {
-			res, m := e.check(cur, e.ts.True)
+			res, m := e.checkW(cur, "concretize", e.ts.True)
 			if res == smt.Unsat {
 				e.finishQuiet(cur)
 				return out
@@ -504,12 +635,15 @@ func (e *Exec) runInner(st *State) (ev event, again bool) {
 					e.finish(st, "fatal", x.msg)
 				case "stop":
 					e.finish(st, "ok", x.msg)
+				case "dead":
 				default:
 					e.finish(st, "internal", x.msg)
 				}
 				ev = event{kind: evDone}
 			case *branchReq:
 				ev = event{kind: evBranch, cond: x.cond}
+			case *choiceReq:
+				ev = event{kind: evChoice, n: x.n}
 			default:
 				panic(r)
 			}
@@ -550,6 +684,7 @@ func (e *Exec) runInner(st *State) (ev event, again bool) {
 }
 
 type branchReq struct{ cond *term.Term }
+type choiceReq struct{ n int }
 
 // checkPauseBlock is called right after entering a block (phis done).
 func (e *Exec) checkPause(st *State, block *ssa.BasicBlock) bool {
@@ -825,9 +960,10 @@ func (e *Exec) Report() map[string]interface{} {
 		"functions":  fns,
 		"caps_hit":   e.CapsHit,
 		"stubs":      e.Stubs,
+		"query_kinds": e.QueryKinds,
 		"init_bad":   bad,
 		"stats": map[string]interface{}{"paths": e.stats.Paths, "forks": e.stats.Forks, "merges": e.stats.Merges, "merge_fails": e.stats.MergeFails,
-			"instrs": e.stats.Instrs, "concretizations": e.stats.Concretizations, "pruned": e.stats.PrunedBranches, "terms": e.ts.NumTerms()},
+			"instrs": e.stats.Instrs, "concretizations": e.stats.Concretizations, "pruned": e.stats.PrunedBranches, "lazy_branches": e.stats.LazyBranches, "terms": e.ts.NumTerms()},
 		"queries": map[string]interface{}{"n": ss.Queries, "unsat": ss.Unsat, "sat": ss.Sat, "unknown": ss.Unknown, "errors": ss.Errors,
 			"ms": ss.Time.Milliseconds(), "max_ms": ss.MaxQuery.Milliseconds(), "last_error": e.solver.LastErr},
 	}
